@@ -39,13 +39,12 @@ Lemma gmt_roundtrip_instances :
   forallb gmt_roundtrip_ok (boundary_instants ++ [-62135596800; 253402300799; -62135596799; 253402300798]) = true.
 Proof. Time vm_compute. reflexivity. Qed.
 
-Lemma gmt2nsec_wraps_at_year_1 :
-  gmt2nsec (sec2gmt_int (-62135596800) 0) <> POk (-62135596800 * 1000000000)
-  /\ gmt2sec_exact (sec2gmt_int (-62135596800) 0) = Some (-62135596800).
-Proof. vm_compute. split; [discriminate|reflexivity]. Qed.
-
-Lemma gmt2sec_refuted : exists n, -62135596800 <= n <= 253402300799 /\ gmt2nsec (sec2gmt_int n 0) <> POk (n * 1000000000).
-Proof. exists (-62135596800). split; [lia|]. exact (proj1 gmt2nsec_wraps_at_year_1). Qed.
+(* the float64 result float64(t.Unix()) + float64(t.Nanosecond())/1e9 equals float64(n) on these instants (tests) *)
+Definition gmt_float_ok (n : Z) : bool :=
+  match gmt2sec_bits (sec2gmt_int n 0) with Some b => b =? bits_of_sf (sf_of_Z n) | None => false end.
+Lemma gmt_float_instances :
+  forallb gmt_float_ok (boundary_instants ++ [-62135596800; 253402300799; -62135596799; 253402300798]) = true.
+Proof. vm_compute. reflexivity. Qed.
 
 Definition dhms_ints : list Z :=
   [0; 1; -1; 59; 60; 61; -59; -60; -61; 3599; 3600; 3601; -3600; 86399; 86400; 86401; -86400; -86401; 500000; -4000; -90000;
